@@ -287,6 +287,10 @@ func main() {
 			run.Eval(key+"|baseline", true)
 			// baseline again: other directory, populated with the previous output + a stale file, GOMAXPROCS 16
 			pop := map[string]string{"stale/old.txt": "left over"}
+			// every file the run is going to write already exists, longer than what will be written
+			for rel := range base.files {
+				pop[rel] = strings.Repeat("// stale line of an earlier, longer output\n", 4000)
+			}
 			again := exec1(worker, dp, c, "-1,0,-1,0,0", 16, pop, true)
 			run.Eval(key+"|baseline-again", true)
 			if d := again.diff(base); d == n2cOnly {
